@@ -24,6 +24,7 @@ import importlib
 import json
 import multiprocessing
 import os
+import pathlib
 import re
 import sys
 import time
@@ -264,7 +265,8 @@ def _slug(s):
 
 
 def write_replay(pid, rec, directory=None):
-    d = directory or (env.VERIF / "replays" / pid)
+    base = pathlib.Path(os.environ["VCHECK_REPLAY_DIR"]) if os.environ.get("VCHECK_REPLAY_DIR") else env.VERIF / "replays"
+    d = directory or (base / pid)
     d.mkdir(parents=True, exist_ok=True)
     p = d / (_slug(rec["bucket"]) + ".json")
     payload = {"property": pid, **rec}
@@ -427,8 +429,8 @@ def write_evidence(pid, evidence):
         jsonschema.validate(json.loads(text), schema)
     except jsonschema.ValidationError as e:
         raise env.HarnessError(f"evidence does not validate: {e.message}") from e
-    d = env.VERIF / "evidence"
-    d.mkdir(exist_ok=True)
+    d = pathlib.Path(os.environ["VCHECK_EVIDENCE_DIR"]) if os.environ.get("VCHECK_EVIDENCE_DIR") else env.VERIF / "evidence"
+    d.mkdir(parents=True, exist_ok=True)
     (d / f"{pid}.json").write_text(text + "\n")
 
 
